@@ -78,6 +78,9 @@ use autosar_data_specification::{AttributeSpec, CharacterDataSpec, ContentMode, 
 use fxhash::{FxBuildHasher, FxHashMap};
 use indexmap::IndexMap;
 pub use iterators::*;
+#[cfg(autosar_data_verif)]
+use crate::verif_lock::RwLock;
+#[cfg(not(autosar_data_verif))]
 use parking_lot::RwLock;
 use parser::ArxmlParser;
 use smallvec::SmallVec;
@@ -95,6 +98,8 @@ mod elementraw;
 mod iterators;
 mod lexer;
 mod parser;
+#[cfg(autosar_data_verif)]
+pub mod verif_lock;
 
 // allow public access to the error sub-types
 pub use lexer::ArxmlLexerError;
